@@ -164,3 +164,10 @@ Definition expected_prohibited_code_pins : list (string * string) := [
 
 Lemma prohibited_pins_ok : prohibited_code_pins = expected_prohibited_code_pins.
 Proof. vm_compute. reflexivity. Qed.
+
+Lemma typed_entry_pins_ok :
+  typed_entry_table = [("from_string_dirnode", "IDirnodeURI", "from_string(s, **kwargs)");
+                       ("from_string_filenode", "IFileURI", "from_string(s, **kwargs)");
+                       ("from_string_mutable_filenode", "IMutableFileURI", "from_string(s, **kwargs)");
+                       ("from_string_verifier", "IVerifierURI", "from_string(s, **kwargs)")].
+Proof. vm_compute. reflexivity. Qed.
